@@ -115,9 +115,11 @@ def find_islands(im, bkg, rms,
         if np.any(snr[xmin:xmax, ymin:ymax][this_island] > seed_clip):
             # obey region constraint
             if region is not None:
-                y, x = np.where(snr[xmin:xmax, ymin:ymax] >= flood_clip)
+                # (row, col) indices of the pixels of this island only
+                x, y = np.where(this_island)
+                # wcs wants (col, row) and these are zero based indices
                 yx = list(zip(y + ymin, x + xmin))
-                ra, dec = wcs.wcs.wcs_pix2world(yx, 1).transpose()
+                ra, dec = wcs.wcs.wcs_pix2world(yx, 0).transpose()
                 mask = region.sky_within(ra, dec, degin=True)
                 if not np.any(mask):
                     continue
